@@ -11,7 +11,7 @@ import ParsleyVerif.Generated.FactsAst
 set_option linter.unusedSimpArgs false
 namespace PV.AstTie
 open PV.Slice
-open PV.SlicePrelude (Node Kind Cell Sl Res M Go.idx Go.setIdx Go.readerPos Go.setReaderPos Go.len)
+open PV.SlicePrelude (Node Kind Cell Sl Res M Go.idx Go.setIdx Go.readerPos Go.setReaderPos Go.len Go.append Go.litSlice)
 open PV.FactsAstProg
 
 def concSl (s : Slice) : Sl := ⟨s.arr, s.len, s.cap⟩
@@ -301,6 +301,414 @@ theorem setRP_tie (grow : Nat → Nat) (d : Nat) (s : St) (h : Handle) (hok : Tr
     simp only [hkind, setRP, SlicePrelude.Node.hasKind, SlicePrelude.Node.kind, bind_run, pure_run]
     rw [NodeList_SetReaderPos]
     simp [bind_run, hl, pure_run]
+
+
+/-! ### append: `ast.AppendNode`, `(*NodeList).Append` (the nodes are not touched: `nodes` is fixed) -/
+
+theorem isNil_concH (nodes : List NodeObj) (h : Handle) : Node.isNil (concH nodes h) = decide (h = Handle.nil) := by
+  cases h with
+  | ptr n => by_cases hk : isNT nodes n = true <;> simp [concH, SlicePrelude.Node.isNil, hk]
+  | _ => simp [concH, SlicePrelude.Node.isNil]
+
+theorem concH_eq_empty (nodes : List NodeObj) (c : Handle) (p : Nat) :
+    concH nodes c = Node.empty (p : Int) ↔ c = Handle.empty p := by
+  cases c with
+  | ptr n => by_cases hk : isNT nodes n = true <;> simp [concH, hk]
+  | empty q => simp only [concH, Node.empty.injEq, Handle.empty.injEq]; omega
+  | _ => simp [concH]
+
+theorem asList_concH (nodes : List NodeObj) (h : Handle) (hn : ∀ sl, h ≠ Handle.list sl) :
+    Node.asList (concH nodes h) = none := by
+  cases h with
+  | ptr n => by_cases hk : isNT nodes n = true <;> simp [concH, SlicePrelude.Node.asList, hk]
+  | list sl => exact absurd rfl (hn sl)
+  | _ => simp [concH, SlicePrelude.Node.asList]
+
+theorem asEmpty_concH (nodes : List NodeObj) (h : Handle) (hn : ∀ p, h ≠ Handle.empty p) :
+    Node.asEmpty (concH nodes h) = none := by
+  cases h with
+  | ptr n => by_cases hk : isNT nodes n = true <;> simp [concH, SlicePrelude.Node.asEmpty, hk]
+  | empty p => exact absurd rfl (hn p)
+  | _ => simp [concH, SlicePrelude.Node.asEmpty]
+
+theorem view_conc (grow : Nat → Nat) (nodes : List NodeObj) (arrs : Arrs) (s : Slice) :
+    SlicePrelude.view (conc grow nodes arrs) (concSl s) = (view arrs s).map (concH nodes) := by
+  simp [SlicePrelude.view, view, cellsOf_conc, concSl, List.map_take]
+
+theorem conc_write (grow : Nat → Nat) (nodes : List NodeObj) (arrs : Arrs) (a i : Nat) (v : Handle) :
+    ({ conc grow nodes arrs with
+        arrays := (conc grow nodes arrs).arrays.modify a (fun c => c.set i (concH nodes v)) } : SlicePrelude.St) =
+      conc grow nodes (writeCell arrs a i v) := by
+  simp only [conc, writeCell]
+  congr 1
+  apply List.ext_getElem?
+  intro j
+  simp only [List.getElem?_modify, List.getElem?_map]
+  by_cases h : a = j
+  · subst h
+    cases arrs[a]? <;> simp [List.map_set]
+  · simp [h]
+
+/-- `append(s, v)`: exactly the machine's `sliceAppend`, for every header (in place — a write into the array every other
+    header onto it shares — when len < cap, a fresh array otherwise) -/
+theorem append_conc (grow : Nat → Nat) (nodes : List NodeObj) (arrs : Arrs) (s : Slice) (v : Handle) :
+    Go.append (concSl s) (concH nodes v) (conc grow nodes arrs) =
+      .ok (concSl (sliceAppend grow arrs s v).2) (conc grow nodes (sliceAppend grow arrs s v).1) := by
+  unfold SlicePrelude.Go.append sliceAppend
+  by_cases h : s.len < s.cap
+  · have h' : (concSl s).len < (concSl s).cap := h
+    rw [if_pos h', if_pos h]
+    show Res.ok _ _ = Res.ok _ _
+    rw [show (concSl s).arr = s.arr from rfl, show (concSl s).len = s.len from rfl, conc_write]
+    rfl
+  · have h' : ¬ (concSl s).len < (concSl s).cap := h
+    rw [if_neg h', if_neg h]
+    show Res.ok _ _ = Res.ok _ _
+    congr 1
+    · simp [conc, concSl]
+    · rw [view_conc]
+      simp [conc, concSl, concH]
+
+theorem litSlice_conc (grow : Nat → Nat) (nodes : List NodeObj) (arrs : Arrs) (h : Handle) :
+    Go.litSlice [concH nodes h] (conc grow nodes arrs) =
+      .ok (concSl ⟨arrs.length, 1, 1⟩) (conc grow nodes (arrs ++ [[h]])) := by
+  simp [SlicePrelude.Go.litSlice, conc, concSl]
+
+theorem swf_len {arrs : Arrs} {s : Slice} (w : SWF arrs s) : s.len ≤ (cells arrs s.arr).length := by
+  rcases w.2 with h0 | ⟨_, h1⟩
+  · have := w.1; omega
+  · have := w.1; omega
+
+/-- the scanning loop of the EmptyNode case (`for _, node := range *nl { if node == v { return } }; *nl = append(*nl, v)`),
+    from index `k`: nothing happens when the value is among the elements from `k` on, else the append -/
+theorem dedupe_tie (grow : Nat → Nat) (nodes : List NodeObj) (arrs : Arrs) (nl : Slice) (p : Nat)
+    (hl : nl.len ≤ (cells arrs nl.arr).length) :
+    ∀ (n k fuel : Nat), k + n = nl.len → n + 1 ≤ fuel →
+      NodeList_Append_loop2 fuel (concSl nl) (p : Int) (k : Int) (conc grow nodes arrs) =
+        if Handle.empty p ∈ (view arrs nl).drop k then .ok (concSl nl) (conc grow nodes arrs)
+        else .ok (concSl (sliceAppend grow arrs nl (Handle.empty p)).2)
+          (conc grow nodes (sliceAppend grow arrs nl (Handle.empty p)).1) := by
+  have hvl : (view arrs nl).length = nl.len := by simp [view]; omega
+  intro n
+  induction n with
+  | zero =>
+    intro k fuel hk hf
+    obtain ⟨f, rfl⟩ : ∃ f, fuel = f + 1 := ⟨fuel - 1, by omega⟩
+    rw [NodeList_Append_loop2]
+    have : ¬ ((k : Int) < Go.len (concSl nl)) := by simp only [SlicePrelude.Go.len, concSl]; omega
+    have hd : (view arrs nl).drop k = [] := List.drop_eq_nil_of_le (by omega)
+    have ha := append_conc grow nodes arrs nl (Handle.empty p)
+    simp only [concH] at ha
+    simp [this, hd, bind_run, ha, pure_run]
+  | succ n ih =>
+    intro k fuel hk hf
+    obtain ⟨f, rfl⟩ : ∃ f, fuel = f + 1 := ⟨fuel - 1, by omega⟩
+    rw [NodeList_Append_loop2]
+    have hlt : (k : Int) < Go.len (concSl nl) := by simp only [SlicePrelude.Go.len, concSl]; omega
+    have hk' : k < nl.len := by omega
+    have hkv : k < (view arrs nl).length := by omega
+    have hkc : k < (cells arrs nl.arr).length := by omega
+    have hget : (cells arrs nl.arr).getD k Handle.nil = (view arrs nl)[k] := by
+      simp [view, List.getD_eq_getElem?_getD, hkc]
+    have hd : (view arrs nl).drop k = (cells arrs nl.arr).getD k Handle.nil :: (view arrs nl).drop (k + 1) := by
+      rw [hget]; exact List.drop_eq_getElem_cons hkv
+    have hcast : ((k : Int) + 1) = ((k + 1 : Nat) : Int) := by omega
+    have hrec := ih (k + 1) f (by omega) (by omega)
+    simp only [hlt, decide_true, if_true, bind_run, idx_conc grow nodes arrs nl k hk' hl, hcast, hrec, hd,
+      List.mem_cons]
+    generalize (cells arrs nl.arr).getD k Handle.nil = c
+    by_cases hc : c = Handle.empty p
+    · have : concH nodes c = Node.empty (p : Int) := (concH_eq_empty nodes _ p).2 hc
+      rw [if_pos (decide_eq_true this)]
+      simp [hc, pure_run]
+    · have : ¬ concH nodes c = Node.empty (p : Int) := fun e => hc ((concH_eq_empty nodes _ p).1 e)
+      have hc' : ¬ Handle.empty p = c := fun e => hc e.symm
+      rw [if_neg (by simp [this]), hrec]
+      simp [hc']
+
+/-- `(nl *NodeList).Append(c)` for a `c` that is not a list -/
+theorem append1_tie (grow : Nat → Nat) (nodes : List NodeObj) (arrs : Arrs) (nl : Slice) (c : Handle)
+    (hc : ∀ sl, c ≠ Handle.list sl) (hl : nl.len ≤ (cells arrs nl.arr).length) (fuel : Nat) (hf : nl.len + 3 ≤ fuel) :
+    NodeList_Append fuel (concSl nl) (concH nodes c) (conc grow nodes arrs) =
+      .ok (concSl (nlAppend1 grow arrs nl c).2) (conc grow nodes (nlAppend1 grow arrs nl c).1) := by
+  obtain ⟨f, rfl⟩ : ∃ f, fuel = f + 1 := ⟨fuel - 1, by omega⟩
+  rw [NodeList_Append, asList_concH nodes c hc]
+  by_cases he : ∃ p, c = Handle.empty p
+  · obtain ⟨p, rfl⟩ := he
+    have hd := dedupe_tie grow nodes arrs nl p hl nl.len 0 f (by omega) (by omega)
+    have hcast : ((0 : Nat) : Int) = 0 := rfl
+    rw [hcast] at hd
+    simp only [concH, SlicePrelude.Node.asEmpty, hd, List.drop_zero, nlAppend1]
+    split <;> rfl
+  · have he' : ∀ p, c ≠ Handle.empty p := fun p e => he ⟨p, e⟩
+    rw [asEmpty_concH nodes c he']
+    have ha := append_conc grow nodes arrs nl c
+    have h1 : nlAppend1 grow arrs nl c = sliceAppend grow arrs nl c := by
+      cases c <;> first | rfl | exact absurd rfl (he' _)
+    simp only [bind_run, ha, pure_run, h1]
+
+theorem nlAppend1_len (grow : Nat → Nat) (arrs : Arrs) (nl : Slice) (c : Handle) :
+    (nlAppend1 grow arrs nl c).2.len ≤ nl.len + 1 := by
+  unfold nlAppend1 sliceAppend
+  repeat' split
+  all_goals simp
+
+/-- the loop of the NodeList case (`for _, node := range v { nl.Append(node) }`) from index `k`, `n` rounds to go; the
+    elements read are never lists in a heap whose cells are all `CellOK` -/
+theorem appendLoop_tie (grow : Nat → Nat) (nodes : List NodeObj) (N : Nat) (src : Slice) :
+    ∀ (n k fuel : Nat) (arrs : Arrs) (nl : Slice), k + n = src.len → nl.len + 2 * n + 4 ≤ fuel →
+      CellsOK N arrs → SWF arrs nl → SWF arrs src →
+      NodeList_Append_loop1 fuel (concSl nl) (concSl src) (k : Int) (conc grow nodes arrs) =
+        .ok (concSl (nlAppendLoop grow src n k arrs nl).2) (conc grow nodes (nlAppendLoop grow src n k arrs nl).1) := by
+  intro n
+  induction n with
+  | zero =>
+    intro k fuel arrs nl hk hf _ _ _
+    obtain ⟨f, rfl⟩ : ∃ f, fuel = f + 1 := ⟨fuel - 1, by omega⟩
+    rw [NodeList_Append_loop1]
+    have : ¬ ((k : Int) < Go.len (concSl src)) := by simp only [SlicePrelude.Go.len, concSl]; omega
+    simp [this, nlAppendLoop, pure_run]
+  | succ n ih =>
+    intro k fuel arrs nl hk hf ok w ws
+    obtain ⟨f, rfl⟩ : ∃ f, fuel = f + 1 := ⟨fuel - 1, by omega⟩
+    rw [NodeList_Append_loop1]
+    have hlt : (k : Int) < Go.len (concSl src) := by simp only [SlicePrelude.Go.len, concSl]; omega
+    have hk' : k < src.len := by omega
+    have hsl := swf_len ws
+    have hcok : CellOK N ((cells arrs src.arr).getD k Handle.nil) := by
+      rw [List.getD_eq_getElem?_getD]
+      cases hk2 : (cells arrs src.arr)[k]? with
+      | none => trivial
+      | some c => exact ok src.arr c (List.mem_of_getElem? hk2)
+    have hnl : ∀ sl, (cells arrs src.arr).getD k Handle.nil ≠ Handle.list sl := by
+      intro sl e; rw [e] at hcok; exact hcok
+    have r1 := nlAppend1_spec grow (fun _ => 0) N arrs nl _ w (fun _ => Nat.zero_le _) (fun _ _ => rfl) ok hcok
+    have hlen := nlAppend1_len grow arrs nl ((cells arrs src.arr).getD k Handle.nil)
+    have h1 := append1_tie grow nodes arrs nl _ hnl (swf_len w) f (by omega)
+    have hrec := ih (k + 1) f _ _ (by omega) (by omega) r1.ok r1.swf (r1.frame.swf ws)
+    have hcast : ((k : Int) + 1) = ((k + 1 : Nat) : Int) := by omega
+    simp only [hlt, decide_true, if_true, bind_run, idx_conc grow nodes arrs src k hk' hsl, h1, hcast, hrec, nlAppendLoop]
+
+/-- the number of elements an operand contributes -/
+def hLen : Handle → Nat
+  | .list s => s.len
+  | _ => 1
+
+/-- what the append family needs of an operand: a list header lies inside its array, a pointer points to an existing
+    object (what every reachable state guarantees of every held handle) -/
+def AppOK (n : Nat) (arrs : Arrs) : Handle → Prop
+  | .list sl => SWF arrs sl
+  | .ptr m => m < n
+  | _ => True
+
+/-- `(nl *NodeList).Append(h2)` is the machine's `nlAppend` -/
+theorem nlAppend_tie (grow : Nat → Nat) (nodes : List NodeObj) (N : Nat) (arrs : Arrs) (nl : Slice) (h2 : Handle)
+    (ok : CellsOK N arrs) (w : SWF arrs nl) (h2ok : AppOK N arrs h2) (fuel : Nat) (hf : nl.len + 2 * hLen h2 + 5 ≤ fuel) :
+    NodeList_Append fuel (concSl nl) (concH nodes h2) (conc grow nodes arrs) =
+      .ok (concSl (nlAppend grow arrs nl h2).2) (conc grow nodes (nlAppend grow arrs nl h2).1) := by
+  by_cases hl : ∃ src, h2 = Handle.list src
+  · obtain ⟨src, rfl⟩ := hl
+    obtain ⟨f, rfl⟩ : ∃ f, fuel = f + 1 := ⟨fuel - 1, by omega⟩
+    have hloop := appendLoop_tie grow nodes N src src.len 0 f arrs nl (by omega) (by simp only [hLen] at hf; omega) ok w h2ok
+    have hcast : ((0 : Nat) : Int) = 0 := rfl
+    rw [hcast] at hloop
+    rw [NodeList_Append]
+    simp only [concH, SlicePrelude.Node.asList, hloop, nlAppend]
+  · have hn : ∀ sl, h2 ≠ Handle.list sl := fun sl e => hl ⟨sl, e⟩
+    have h1 : nlAppend grow arrs nl h2 = nlAppend1 grow arrs nl h2 := by
+      cases h2 <;> first | rfl | exact absurd rfl (hn _)
+    rw [h1]
+    exact append1_tie grow nodes arrs nl h2 hn (swf_len w) fuel (by omega)
+
+/-- `ast.AppendNode(h1, h2)`, neither nil, `h1` not a list: a fresh one-element list, then `Append` -/
+theorem appendNode_fresh_tie (grow : Nat → Nat) (nodes : List NodeObj) (arrs : Arrs) (h1 h2 : Handle)
+    (hn1 : h1 ≠ Handle.nil) (hn2 : h2 ≠ Handle.nil) (hn : ∀ sl, h1 ≠ Handle.list sl)
+    (ok : CellsOK nodes.length arrs) (h1ok : AppOK nodes.length arrs h1) (h2ok : AppOK nodes.length arrs h2)
+    (f : Nat) (hf : 2 * hLen h2 + 6 ≤ f) :
+    AppendNode (f + 1) (concH nodes h1) (concH nodes h2) (conc grow nodes arrs) =
+      .ok (Node.list (concSl (nlAppend grow (arrs ++ [[h1]]) ⟨arrs.length, 1, 1⟩ h2).2))
+        (conc grow nodes (nlAppend grow (arrs ++ [[h1]]) ⟨arrs.length, 1, 1⟩ h2).1) := by
+  rw [AppendNode]
+  simp only [isNil_concH, hn1, hn2, decide_false, if_false, Bool.false_eq_true]
+  have hc1 : CellOK nodes.length h1 := by
+    cases h1 <;> first | trivial | exact h1ok | exact absurd rfl (hn _)
+  have ok' : CellsOK nodes.length (arrs ++ [[h1]]) :=
+    cellsOK_append ok [h1] (fun x hx => by simp at hx; subst hx; exact hc1)
+  have w' : SWF (arrs ++ [[h1]]) ⟨arrs.length, 1, 1⟩ :=
+    ⟨Nat.le_refl _, Or.inr ⟨by simp, by rw [cells_append_eq]; simp⟩⟩
+  have fr := frameA_append (fun _ => 0) arrs [h1] (fun _ _ => rfl)
+  have h2ok' : AppOK nodes.length (arrs ++ [[h1]]) h2 := by
+    cases h2 <;> first | trivial | exact h2ok | exact fr.swf h2ok
+  have ht := nlAppend_tie grow nodes nodes.length (arrs ++ [[h1]]) ⟨arrs.length, 1, 1⟩ h2 ok' w' h2ok' f
+    (by show 1 + 2 * hLen h2 + 5 ≤ f; omega)
+  simp only [asList_concH nodes h1 hn, bind_run, litSlice_conc, ht, pure_run]
+
+/-- `ast.AppendNode(h1, h2)` is the machine's `appendNodeCore` -/
+theorem appendNode_tie (grow : Nat → Nat) (nodes : List NodeObj) (arrs : Arrs) (h1 h2 : Handle)
+    (ok : CellsOK nodes.length arrs) (h1ok : AppOK nodes.length arrs h1) (h2ok : AppOK nodes.length arrs h2)
+    (fuel : Nat) (hf : hLen h1 + 2 * hLen h2 + 6 ≤ fuel) :
+    AppendNode fuel (concH nodes h1) (concH nodes h2) (conc grow nodes arrs) =
+      .ok (concH nodes (appendNodeCore grow arrs h1 h2).2) (conc grow nodes (appendNodeCore grow arrs h1 h2).1) := by
+  obtain ⟨f, rfl⟩ : ∃ f, fuel = f + 1 := ⟨fuel - 1, by omega⟩
+  by_cases hn1 : h1 = Handle.nil
+  · rw [AppendNode]
+    simp [appendNodeCore, isNil_concH, hn1, pure_run]
+  by_cases hn2 : h2 = Handle.nil
+  · rw [AppendNode]
+    simp [appendNodeCore, isNil_concH, hn1, hn2, pure_run]
+  cases h1 with
+  | nil => exact absurd rfl hn1
+  | list sl =>
+    rw [AppendNode]
+    have ht := nlAppend_tie grow nodes nodes.length arrs sl h2 ok h1ok h2ok f
+      (by have : hLen (Handle.list sl) = sl.len := rfl
+          omega)
+    have e : appendNodeCore grow arrs (Handle.list sl) h2 =
+        ((nlAppend grow arrs sl h2).1, Handle.list (nlAppend grow arrs sl h2).2) := by
+      simp [appendNodeCore, hn2]
+    rw [e, show concH nodes (Handle.list sl) = Node.list (concSl sl) from rfl]
+    have hnil1 : Node.isNil (Node.list (concSl sl)) = false := rfl
+    simp only [hnil1, isNil_concH, hn2, decide_false, if_false, Bool.false_eq_true, reduceCtorEq,
+      SlicePrelude.Node.asList, bind_run, ht, pure_run]
+    rfl
+  | ptr n =>
+    have e : appendNodeCore grow arrs (Handle.ptr n) h2 =
+        ((nlAppend grow (arrs ++ [[Handle.ptr n]]) ⟨arrs.length, 1, 1⟩ h2).1,
+          Handle.list (nlAppend grow (arrs ++ [[Handle.ptr n]]) ⟨arrs.length, 1, 1⟩ h2).2) := by
+      simp [appendNodeCore, hn2]
+    rw [e]
+    exact appendNode_fresh_tie grow nodes arrs _ h2 hn1 hn2 (by simp) ok h1ok h2ok f
+      (by have h1 : ∀ x, hLen x = hLen x := fun _ => rfl
+          simp only [hLen] at hf ⊢; omega)
+  | empty p =>
+    have e : appendNodeCore grow arrs (Handle.empty p) h2 =
+        ((nlAppend grow (arrs ++ [[Handle.empty p]]) ⟨arrs.length, 1, 1⟩ h2).1,
+          Handle.list (nlAppend grow (arrs ++ [[Handle.empty p]]) ⟨arrs.length, 1, 1⟩ h2).2) := by
+      simp [appendNodeCore, hn2]
+    rw [e]
+    exact appendNode_fresh_tie grow nodes arrs _ h2 hn1 hn2 (by simp) ok h1ok h2ok f
+      (by have h1 : ∀ x, hLen x = hLen x := fun _ => rfl
+          simp only [hLen] at hf ⊢; omega)
+  | eof p =>
+    have e : appendNodeCore grow arrs (Handle.eof p) h2 =
+        ((nlAppend grow (arrs ++ [[Handle.eof p]]) ⟨arrs.length, 1, 1⟩ h2).1,
+          Handle.list (nlAppend grow (arrs ++ [[Handle.eof p]]) ⟨arrs.length, 1, 1⟩ h2).2) := by
+      simp [appendNodeCore, hn2]
+    rw [e]
+    exact appendNode_fresh_tie grow nodes arrs _ h2 hn1 hn2 (by simp) ok h1ok h2ok f
+      (by have h1 : ∀ x, hLen x = hLen x := fun _ => rfl
+          simp only [hLen] at hf ⊢; omega)
+
+/-! ### any store: an append through a header WITHOUT spare capacity never writes into an existing array
+
+  Directly about the translated functions, for every store of the run-time (not only those that correspond to a state of the
+  machine) and every argument (nested lists included).  `Away N nl`: an in-place append through `nl` — if `nl` has spare
+  capacity at all — goes to an array allocated after the first `N`.  A clipped header (len = cap) is `Away N` for every `N`,
+  and stays so through `Append`: its first append allocates, the later ones extend that new array. -/
+
+def Pres (N : Nat) (st st' : SlicePrelude.St) : Prop :=
+  st'.cells = st.cells ∧ st'.grow = st.grow ∧ N ≤ st'.arrays.length ∧ st'.arrays.take N = st.arrays.take N
+
+def Away (N : Nat) (nl : Sl) : Prop := nl.len < nl.cap → N ≤ nl.arr
+
+theorem Pres.refl {N : Nat} {st : SlicePrelude.St} (h : N ≤ st.arrays.length) : Pres N st st := ⟨rfl, rfl, h, rfl⟩
+
+theorem Pres.trans {N : Nat} {a b c : SlicePrelude.St} (h1 : Pres N a b) (h2 : Pres N b c) : Pres N a c :=
+  ⟨h2.1.trans h1.1, h2.2.1.trans h1.2.1, h2.2.2.1, h2.2.2.2.trans h1.2.2.2⟩
+
+theorem bind_ok_inv {α β : Type} (x : M α) (f : α → M β) (s s' : SlicePrelude.St) (b : β)
+    (h : (x >>= f) s = .ok b s') : ∃ a s1, x s = .ok a s1 ∧ f a s1 = .ok b s' := by
+  rw [bind_run] at h
+  cases hx : x s with
+  | ok a s1 => exact ⟨a, s1, rfl, by simpa [hx] using h⟩
+  | panic => simp [hx] at h
+  | nofuel => simp [hx] at h
+
+theorem append_away {N : Nat} {s s' : Sl} {v : Node} {st st' : SlicePrelude.St} (hN : N ≤ st.arrays.length)
+    (ha : Away N s) (h : Go.append s v st = .ok s' st') : Away N s' ∧ Pres N st st' := by
+  unfold SlicePrelude.Go.append at h
+  by_cases hlt : s.len < s.cap
+  · rw [if_pos hlt] at h
+    simp only [Res.ok.injEq] at h
+    obtain ⟨rfl, rfl⟩ := h
+    have hNa := ha hlt
+    refine ⟨fun _ => hNa, rfl, rfl, by simpa using hN, ?_⟩
+    apply List.ext_getElem?
+    intro i
+    simp only [List.getElem?_take, List.getElem?_modify]
+    by_cases hi : i < N
+    · have : ¬ s.arr = i := by omega
+      simp [hi, this]
+    · simp [hi]
+  · rw [if_neg hlt] at h
+    simp only [Res.ok.injEq] at h
+    obtain ⟨rfl, rfl⟩ := h
+    refine ⟨fun _ => hN, rfl, rfl, by simp; omega, ?_⟩
+    simp [List.take_append_of_le_length hN]
+
+theorem idx_state {s : Sl} {i : Int} {st st' : SlicePrelude.St} {v : Node} (h : Go.idx s i st = .ok v st') : st' = st := by
+  unfold SlicePrelude.Go.idx at h
+  split at h
+  · split at h
+    · simp only [Res.ok.injEq] at h; exact h.2.symm
+    · cases h
+  · cases h
+
+theorem append_away_all (N : Nat) : ∀ fuel : Nat,
+    (∀ (nl : Sl) (node : Node) (st : SlicePrelude.St) (nl' : Sl) (st' : SlicePrelude.St), N ≤ st.arrays.length → Away N nl →
+      NodeList_Append fuel nl node st = .ok nl' st' → Away N nl' ∧ Pres N st st') ∧
+    (∀ (nl v : Sl) (k : Int) (st : SlicePrelude.St) (nl' : Sl) (st' : SlicePrelude.St), N ≤ st.arrays.length → Away N nl →
+      NodeList_Append_loop1 fuel nl v k st = .ok nl' st' → Away N nl' ∧ Pres N st st') ∧
+    (∀ (nl : Sl) (p k : Int) (st : SlicePrelude.St) (nl' : Sl) (st' : SlicePrelude.St), N ≤ st.arrays.length → Away N nl →
+      NodeList_Append_loop2 fuel nl p k st = .ok nl' st' → Away N nl' ∧ Pres N st st') := by
+  intro fuel
+  induction fuel with
+  | zero =>
+    refine ⟨?_, ?_, ?_⟩
+    · intro nl node st nl' st' _ _ h; rw [NodeList_Append] at h; cases h
+    · intro nl v k st nl' st' _ _ h; rw [NodeList_Append_loop1] at h; cases h
+    · intro nl p k st nl' st' _ _ h; rw [NodeList_Append_loop2] at h; cases h
+  | succ f ih =>
+    obtain ⟨ihA, ih1, ih2⟩ := ih
+    refine ⟨?_, ?_, ?_⟩
+    · intro nl node st nl' st' hN ha h
+      rw [NodeList_Append] at h
+      cases hl : Node.asList node with
+      | some v =>
+        simp only [hl] at h
+        exact ih1 _ _ _ _ _ _ hN ha h
+      | none =>
+        simp only [hl] at h
+        cases he : Node.asEmpty node with
+        | some p =>
+          simp only [he] at h
+          exact ih2 _ _ _ _ _ _ hN ha h
+        | none =>
+          simp only [he] at h
+          exact append_away hN ha h
+    · intro nl v k st nl' st' hN ha h
+      rw [NodeList_Append_loop1] at h
+      split at h
+      · obtain ⟨c, s1, h1, h2⟩ := bind_ok_inv _ _ _ _ _ h
+        have := idx_state h1; subst this
+        obtain ⟨nl1, s2, h3, h4⟩ := bind_ok_inv _ _ _ _ _ h2
+        have r1 := ihA _ _ _ _ _ hN ha h3
+        have r2 := ih1 _ _ _ _ _ _ r1.2.2.2.1 r1.1 h4
+        exact ⟨r2.1, r1.2.trans r2.2⟩
+      · simp only [pure_run, Res.ok.injEq] at h
+        obtain ⟨rfl, rfl⟩ := h
+        exact ⟨ha, Pres.refl hN⟩
+    · intro nl p k st nl' st' hN ha h
+      rw [NodeList_Append_loop2] at h
+      split at h
+      · obtain ⟨c, s1, h1, h2⟩ := bind_ok_inv _ _ _ _ _ h
+        have := idx_state h1; subst this
+        split at h2
+        · simp only [pure_run, Res.ok.injEq] at h2
+          obtain ⟨rfl, rfl⟩ := h2
+          exact ⟨ha, Pres.refl hN⟩
+        · exact ih2 _ _ _ _ _ _ hN ha h2
+      · exact append_away hN ha h
 
 /-! ### reachable states -/
 
